@@ -9,7 +9,9 @@ package c18
 import (
 	"context"
 	"errors"
+
 	"fmt"
+	agerrors "github.com/AdguardTeam/golibs/errors"
 	"log/slog"
 	"os"
 	"runtime/debug"
@@ -109,6 +111,15 @@ func (s *svc) Shutdown(ctx context.Context) error {
 	}
 	switch s.outcome {
 	case outErr:
+		// A non-nil error of some kind: plain, joined, or one that golibs'
+		// own errors package marks as coming from a deferred cleanup.
+		switch s.idx % 3 {
+		case 1:
+			return errors.Join(fmt.Errorf("service %d failed", s.idx), fmt.Errorf("and again"))
+		case 2:
+			return agerrors.WithDeferred(nil, fmt.Errorf("service %d: closing failed", s.idx))
+		}
+
 		return fmt.Errorf("service %d failed", s.idx)
 	case outPanic:
 		panic("service panics in Shutdown")
@@ -826,6 +837,9 @@ func runRefresh(rc *kernel.RunCtx, k *kernel.Kernel) {
 	s.shutdownCtx = context.WithValue(shutBase, ctxKey{}, &marker{id: -2})
 	for i := 0; i < 16; i++ {
 		switch i % 4 {
+		case 2:
+			// A joined error is one error.
+			s.errPool = append(s.errPool, errors.Join(fmt.Errorf("refresh error #%da", i), fmt.Errorf("refresh error #%db", i)))
 		case 1:
 			// Errors that look like cancellations are errors all the same.
 			s.errPool = append(s.errPool, fmt.Errorf("refresh error #%d: %w", i, context.Canceled))
